@@ -14,7 +14,7 @@
 From Coq Require Import String List Bool Arith ZArith.
 From V Require Import Model.Universe Model.Group Model.DataId Model.DataIdX Model.DataIdCheck Gen.Universes
   Proofs.GroupProofs Proofs.DataIdProofs Proofs.DataIdProofsExpand Proofs.DataIdProofsShipped Proofs.DataIdProofsErrors Proofs.DataIdProofsUnion
-  Proofs.DataIdProofsX Proofs.DataIdProofsX2 Proofs.DataIdProofsX3 Proofs.DataIdProofsOldA Proofs.DataIdProofsX4.
+  Proofs.DataIdProofsX Proofs.DataIdProofsX2 Proofs.DataIdProofsX3 Proofs.DataIdProofsOldA Proofs.DataIdProofsX4 Proofs.DataIdProofsX5.
 Import ListNotations.
 Open Scope string_scope.
 Open Scope list_scope.
@@ -520,3 +520,27 @@ Theorem expand_dc_carried_records_refuted :
     expand_data_id_x u_current ex_db2 [] None (dmapping d) [] [] = Err EInconsistent.
 Proof. exact expand_dc_carried_records_refuted_p. Qed.
 Print Assumptions expand_dc_carried_records_refuted.
+
+(* ---- union with ATTACHED RECORDS (any of the three classes on either side) ---- *)
+Theorem union_values_any : forall u la lb a b c, wf_universe u = true ->
+  mkgroup u la = GOk (dgroup a) -> mkgroup u lb = GOk (dgroup b) -> has_required a -> has_required b ->
+  recs_cover a -> recs_cover b -> union u a b = Ok c ->
+  exists G, gunion u (dgroup a) (dgroup b) = GOk G /\ dgroup c = G /\ has_required c /\
+    forall k v, dc_get c k = Some v -> dc_get b k = Some v \/ dc_get a k = Some v.
+Proof. exact union_strong_any. Qed.
+Print Assumptions union_values_any.
+
+(* union_commutes at full strength: with or without attached records *)
+Theorem union_commutes_any : forall u la lb a b c1 c2, wf_universe u = true ->
+  mkgroup u la = GOk (dgroup a) -> mkgroup u lb = GOk (dgroup b) -> has_required a -> has_required b ->
+  recs_cover a -> recs_cover b -> agree_on_common a b ->
+  union u a b = Ok c1 -> union u b a = Ok c2 -> dc_eq c1 c2 = true.
+Proof. exact union_commutes_any_p. Qed.
+Print Assumptions union_commutes_any.
+
+(* supplied / carried records that ARE the stored rows under the final values (given_stored): the ordinary soundness *)
+Theorem expand_records_sound_stored : forall u D G given k0 k1 recs,
+  expand_keys_r u D G given k0 = Ok (k1, recs) -> given_stored u D given k1 ->
+  extends k1 k0 /\ glookup G = GOk (map fst recs) /\ consistent u D G k1 recs.
+Proof. exact expand_keys_r_sound_stored_p. Qed.
+Print Assumptions expand_records_sound_stored.
